@@ -36,6 +36,10 @@ var specs = []string{
 	"grammar bad ; start = \"a\" # ;",
 	// 9: rules first, then directives whose rule handles repeat productions declared above (and one that is new)
 	"grammar late ; start = e ; e = e \"+\" e | e e | \"a\" | f ; f = \"b\" ; @left < e = e \"+\" e > \"+\" ; @right < e = e e > < f = \"b\" > < f = \"b\" \"b\" > ; g = e ; @none < g = e > ;",
+	// 10: the last declaration is a directive, its last handle each kind of handle in turn (token name, string, rule)
+	"grammar tail ; PLUS = \"+\" ; MINUS = \"-\" ; start = e ; e = e PLUS e | e MINUS e | e \"*\" e | e e | \"a\" ; @left \"*\" < e = e e > ; @right PLUS MINUS ;",
+	"grammar tails ; PLUS = \"+\" ; start = e ; e = e PLUS e | e \"*\" e | \"a\" ; @left PLUS ; @left \"*\" ;",
+	"grammar tailr ; PLUS = \"+\" ; start = e ; e = e PLUS e | e e | \"a\" ; @left PLUS @right < e = e e > ;",
 }
 
 var posRE = regexp.MustCompile(`f\.g:(\d+):(\d+)`)
@@ -171,7 +175,7 @@ func main() {
 		r.Finish()
 	}
 	if r.Fork(16) {
-		r.Set("rule", "10 specifications (7 valid covering every token kind and both orders of rules and rule handles, 3 invalid) x layouts: every separator choice in every gap, a comment of three kinds in every gap, every generated short comment (block bodies over {*,/,x,blank,LF,CR} up to length 3 quick / 4 thorough, line bodies up to 2) in every gap, final newline/blank/comment variants, every subset of optional semicolons (<= 6 positions), and the padding sweep: every gap x every padding amount in the tier's range x 4 fillers (blanks, newlines, one long comment, short comments); non-trivial = a layout different from the canonical one; distinct by text hash")
+		r.Set("rule", "13 specifications (10 valid covering every token kind, both orders of rules and rule handles and every kind of last handle of a final directive, 3 invalid) x layouts: every separator choice in every gap, a comment of three kinds in every gap, every generated short comment (block bodies over {*,/,x,blank,LF,CR} up to length 3 quick / 4 thorough, line bodies up to 2) in every gap, final newline/blank/comment variants, every subset of optional semicolons (<= 6 positions), and the padding sweep: every gap x every padding amount in the tier's range x 4 fillers (blanks, newlines, one long comment, short comments); non-trivial = a layout different from the canonical one; distinct by text hash")
 		r.Set("evaluations", r.Get("layouts"))
 		r.Finish()
 	}
@@ -295,7 +299,7 @@ func main() {
 			}
 		}
 		// comments in one gap
-		for _, c := range []string{"// c\n", " /* c */ ", "/***/", " /* * / ** */", "//\n", "/**/", "\t// \"x\" = ;\n", " /* grammar g ; */ "} {
+		for _, c := range []string{"// c\n", " /* c */ ", "/***/", " /* * / ** */", "//\n", "/**/", "\t// \"x\" = ;\n", " /* grammar g ; */ ", "// c\r", "// c\r\n", "//\r", "/* c */\r// d\r"} {
 			c := c
 			for g := 0; g <= len(toks); g++ {
 				g := g
@@ -448,7 +452,7 @@ func main() {
 			}
 		}
 	}
-	// optional semicolons: every subset of the optional positions of specs 1 and 3 changes nothing
+	// optional semicolons: every subset of the optional positions of six specifications changes nothing
 	semis(r)
 	r.Assume("specification texts are ASCII and contain no NUL byte; no single token is longer than one buffer half (comments used as padding may be)")
 	r.Finish()
@@ -534,7 +538,7 @@ func inLiteral(text string, i int) bool {
 }
 
 func semis(r *ev.Run) {
-	for _, si := range []int{1, 3, 5} {
+	for _, si := range []int{1, 3, 5, 10, 11, 12} {
 		sp, err := ebnfref.ParseSpec(specs[si])
 		if err != nil {
 			ev.Fatal("semis: %v", err)
